@@ -565,7 +565,7 @@ func (dec *Decoder) Literal(ptr *string) bool {
 	if dec.CheckBufferedLiteralFunc != nil {
 		if err := dec.CheckBufferedLiteralFunc(lit.Size(), nonSync); err != nil {
 			lit.cancel()
-			return false
+			return dec.returnErr(err)
 		}
 	}
 	var sb strings.Builder
